@@ -2014,6 +2014,37 @@ example : mixedWitness ≠ [] ∧ NonemptyButLast mixedWitness ∧ NoMatlessAfte
 
 end shared
 
+/-! ### the two known deviations, as closed witnesses (the scenes the harness replays on every run) -/
+
+section findings
+
+def triMesh (off : Nat) (mats : List (Option String × Nat)) : Mesh Nat :=
+  ⟨[0, 1, 2], some [⟨off, 0, 0⟩, ⟨off, 1, 0⟩, ⟨off, 0, 1⟩], none, none, mats⟩
+
+/-- mesh `A` with material `red`, then mesh `B` without material ranges -/
+def matlessWitness : List (String × Mesh Nat) := [("A", triMesh 0 [(some "red", 1)]), ("B", triMesh 1 [])]
+
+/-- **Known finding 1, as a theorem about the model**: on `matlessWitness` the round trip satisfies the
+    exact-behaviour predicate but NOT the property predicate — `B` comes back with material `red`. -/
+theorem obj_matless_after_mat_witness :
+    (match thenRead (writeObj "" matlessWitness) with
+     | .ok (gs, _) => RoundTripsCarry id none matlessWitness gs && !RoundTrips id matlessWitness gs &&
+        (gs.map fun p => p.2.mats) == [[(some "red", 1)], [(some "red", 1)]]
+     | .error _ => false) = true := by decide
+
+/-- an empty mesh between two others -/
+def emptyMidWitness : List (String × Mesh Nat) :=
+  [("A", triMesh 0 []), ("E", ⟨[], none, none, none, []⟩), ("B", triMesh 1 [])]
+
+/-- **Known finding 2**: on `emptyMidWitness` only two groups come back (`A` and `B`); the empty mesh's
+    group is lost, so the property predicate is false. -/
+theorem obj_empty_mesh_not_last_witness :
+    (match thenRead (writeObj "" emptyMidWitness) with
+     | .ok (gs, _) => (gs.map fun p => p.1) == ["A", "B"] && !RoundTrips id emptyMidWitness gs
+     | .error _ => false) = true := by decide
+
+end findings
+
 /-! ### load → save → load -/
 
 section reload
